@@ -56,6 +56,10 @@ CHECKS = {
    text='Proved for all offsets/lengths: readbs raises IOError iff the request exceeds the buffer, otherwise returns exactly bin[offset:offset+l] and advances the offset; the slice never leaves the sequence. Static: _dis/get_afs touch the stream only via readbs()/offset. Bounded: 1.4M byte strings (structured + random, stream offsets, all truncations) never crash dis, accepted instructions render in both syntaxes; 170k token sequences make asm/asm_att return a list or raise ValueError. 238 crash/rendering classes are known findings.',
    note='Trusted: z3, pyvc and its opaque-sequence model of bytes; the fuzz populations use fixed internal seeds so that the known-findings list stays exact.',
    ref='5 C10'),
+ 'C17': dict(cat='other', tech='getnextflow/getdstflow verified from their AST by VC generation (pyvc, z3; callee contracts of the modint operators proved in C14); flow attribute table decided completely by computation against the architectural classification; displacement decoding end to end bounded',
+   text='Proved for all offsets < 2^32, lengths and displacement values: getnextflow() == offset + l and getdstflow() == [(offset + l + imm) mod 2^opsize] for the three operand-type shapes the decoder produces. Complete: all 769 table rows have the architectural (breakflow, splitflow, dstflow). Bounded: 21k (branch encoding, prefix, displacement boundary, offset incl. 2^32-1) cases against the spec decoder. 17 obligations (0x66-prefixed jcc/call decoded with rel32) are a known finding.',
+   note='Trusted: z3, pyvc, contracts.modint, specs/x86dec.py. sysenter/sysexit/syscall/sysret excluded as the property says.',
+   ref='5 C17'),
 }
 NOT_YET = {}
 ALL = ['C%02d' % i for i in range(1, 20)]
